@@ -388,8 +388,8 @@ def b_len(args, kw):
     from .arrays import AArr
     if isinstance(x, AArr):
         return x.shape[0]
-    from .seq import ASet
-    if isinstance(x, ASet):
+    from .seq import ASet, ADict
+    if isinstance(x, (ASet, ADict)):
         return x.len_value()
     raise OutOfSubset('len of ' + type(x).__name__)
 
@@ -443,11 +443,13 @@ def b_list(args, kw):
         return []
     it = force(args[0])
     if isinstance(it, AList):
-        return it
-    from .seq import ASet
+        return it.clone()
+    from .seq import ASet, ADict
     if isinstance(it, ASet):
         from . import seq
         return seq.list_of_set(it)
+    if isinstance(it, ADict):
+        return it.keys_al()
     return list(interp_ref[0].iterate(it))
 
 
@@ -464,9 +466,12 @@ def b_set(args, kw):
     if isinstance(it, AList):
         from . import seq
         return seq.set_of(it)
-    from .seq import ASet
+    from .seq import ASet, ADict
     if isinstance(it, ASet):
         return it
+    if isinstance(it, ADict):
+        from . import seq
+        return seq.set_of(it.keys_al())
     return ISet(interp_ref[0].iterate(it))
 
 
@@ -1070,6 +1075,7 @@ def _dict_method(I, d, name):
         return default
 
     def clear():
+        d._mutating('clear')
         d.items_.clear()
     table = dict(keys=d.keys, values=d.values, items=d.items, get=get, pop=pop, update=update, copy=d.copy, setdefault=setdefault, clear=clear)
     if name not in table:
@@ -1159,8 +1165,8 @@ def value_attr(I, obj, name):
     from .arrays import AArr
     if isinstance(obj, AArr):
         return obj.attr(I, name)
-    from .seq import ASet
-    if isinstance(obj, ASet):
+    from .seq import ASet, ADict
+    if isinstance(obj, (ASet, ADict)):
         return obj.attr(I, name)
     if isinstance(obj, FunctionVal):
         if name == '__name__':
